@@ -38,7 +38,7 @@ def main():
     pre = sys.argv[1:]
     ds = sorted(d for d in os.listdir(os.path.join(VERIF, 'seeded')) if os.path.exists(os.path.join(VERIF, 'seeded', d, 'meta.json')))
     if pre:
-        ds = [d for d in ds if any(d.startswith(p) for p in pre)]
+        ds = [d for d in ds if any((d.endswith(p[1:]) if p.startswith('*') else d.startswith(p)) for p in pre)]      # 'C07' or '*-5'
     with ThreadPoolExecutor(max_workers=3) as ex:
         for d, res in ex.map(one, ds):
             print(d, res, flush=True)
